@@ -5,6 +5,8 @@ package main
 
 import (
 	"fmt"
+	"go/token"
+	"go/types"
 	"strings"
 
 	"golang.org/x/tools/go/ssa"
@@ -678,6 +680,7 @@ func storesToField(fn *ssa.Function, field string) []ssa.Instruction {
 
 func c24Extras(c *Ctx) {
 	w := c.W
+	c24SuiteCertRules(c)
 	// the second ClientHello (after a HelloRetryRequest): once a field of the hello was changed, the cached
 	// encoding is dropped before anything is computed from or sent as hello.marshal*()
 	fn := w.Fn("(*z/tls.clientHandshakeStateTLS13).processHelloRetryRequest")
@@ -753,12 +756,8 @@ func c25Extras(c *Ctx) {
 		calls := callsIn(fn, "(*z/tls.Conn).writeRecordLocked")
 		c.Check(len(calls) >= 2, "R-ERR", "tls.Conn.Write", "record writes enumerated", w.Pos(fn.Pos()), fmt.Sprint(len(calls)))
 		if len(calls) > 0 {
-			first := calls[0]
 			k := 0
 			for _, rt := range returnsOf(fn) {
-				if !instrDominates(first, rt) && !blockReaches(first.Block(), rt.Block()) {
-					continue
-				}
 				reach := false
 				for _, cl := range calls {
 					if cl.Block() == rt.Block() && instrIndex(cl) < instrIndex(rt) || (cl.Block() != rt.Block() && blockReaches(cl.Block(), rt.Block())) {
@@ -847,7 +846,7 @@ func c25Extras(c *Ctx) {
 				}
 				n++
 				c.Sites++
-				c.Check(strings.HasPrefix(lowE, "crypto/subtle.ConstantTimeSelect("), "R-BOUNDS", "tls.halfConn.decrypt", "the MAC offset computed from attacker-controlled padding is clamped to >= 0 before it is used as a slice bound", w.InstrPos(in), lowE)
+				c.Check(clampedAtZero(sl.Low), "R-BOUNDS", "tls.halfConn.decrypt", "the MAC offset computed from attacker-controlled padding is clamped to >= 0 before it is used as a slice bound", w.InstrPos(in), lowE)
 			}
 		}
 		c.Check(n >= 1, "R-BOUNDS", "tls.halfConn.decrypt", "MAC slice found", w.Pos(fn.Pos()), fmt.Sprint(n))
@@ -1003,6 +1002,165 @@ func c25WriteRules(c *Ctx) {
 	for _, o := range sub.Obls {
 		if o.Rule == "R-ERR" && strings.Contains(o.Func, "Write") {
 			c.Obls = append(c.Obls, o)
+		}
+	}
+}
+
+
+// clampedAtZero: v is the result of a clamp to >= 0 in one of the idioms a maintainer would write:
+// subtle.ConstantTimeSelect(sign, 0, n), max(n, 0), or a merge of n with the constant 0 (if n < 0 { n = 0 }).
+func clampedAtZero(v ssa.Value) bool {
+	isZero := func(x ssa.Value) bool {
+		k, ok := x.(*ssa.Const)
+		return ok && k.Value != nil && k.Value.String() == "0"
+	}
+	switch t := v.(type) {
+	case *ssa.Call:
+		if f := t.Call.StaticCallee(); f != nil && FuncName(f) == "crypto/subtle.ConstantTimeSelect" && len(t.Call.Args) == 3 {
+			return isZero(t.Call.Args[1]) || isZero(t.Call.Args[2])
+		}
+		if b, ok := t.Call.Value.(*ssa.Builtin); ok && b.Name() == "max" {
+			for _, a := range t.Call.Args {
+				if isZero(a) {
+					return true
+				}
+			}
+		}
+	case *ssa.Phi:
+		for _, e := range t.Edges {
+			if isZero(e) {
+				return true
+			}
+		}
+	}
+	return false
+}
+
+// c32DecryptClamp: the MAC-offset clamp in halfConn.decrypt is also a no-panic obligation (C32).
+func c32DecryptClamp(c *Ctx) {
+	sub := &Ctx{W: c.W, FnsSeen: map[string]bool{}, extra: map[string]any{}}
+	c25Extras(sub)
+	for _, o := range sub.Obls {
+		if o.Rule == "R-BOUNDS" && strings.Contains(o.Func, "decrypt") {
+			c.Obls = append(c.Obls, o)
+		}
+	}
+}
+
+
+// c24SuiteCertRules: the two places that decide "this suite works with this certificate" — the filter closure of
+// ClientHelloInfo.SupportsCertificate (certificate choice) and serverHandshakeState.cipherSuiteOk (suite choice) —
+// each enforce both directions of suite-authentication <=> key type. A one-way test makes getCertificate hand out
+// a certificate for which pickCipherSuite then finds no suite.
+func c24SuiteCertRules(c *Ctx) {
+	w := c.W
+	maskOf := func(name string) string {
+		p := w.Pkg("z/tls")
+		if p == nil {
+			return ""
+		}
+		k, ok := p.Types.Scope().Lookup(name).(*types.Const)
+		if !ok {
+			return ""
+		}
+		return k.Val().ExactString()
+	}
+	// edges of "flags & mask != 0": set/clear
+	flagEdges := func(fn *ssa.Function, mask string) (set, clear []EdgeRef) {
+		for _, b := range fn.Blocks {
+			iff, ok := b.Instrs[len(b.Instrs)-1].(*ssa.If)
+			if !ok {
+				continue
+			}
+			for si := 0; si < 2; si++ {
+				for _, f := range condFacts(iff.Cond, si == 0, idRes) {
+					if f.Op != "ne" && f.Op != "eq" || f.Y == nil {
+						continue
+					}
+					and, ok := f.X.(*ssa.BinOp)
+					k0, ok2 := f.Y.(*ssa.Const)
+					if !ok || !ok2 || and.Op != token.AND || k0.Value == nil || k0.Value.ExactString() != "0" {
+						continue
+					}
+					km, ok := and.Y.(*ssa.Const)
+					if !ok || km.Value == nil || km.Value.ExactString() != mask || !strings.HasSuffix(Expr(and.X), ".flags") {
+						continue
+					}
+					if f.Op == "ne" {
+						set = append(set, EdgeRef{B: b, Succ: si})
+					} else {
+						clear = append(clear, EdgeRef{B: b, Succ: si})
+					}
+				}
+			}
+		}
+		return
+	}
+	type want struct{ op, leaf string }
+	type row struct {
+		fn         *ssa.Function
+		name       string
+		mask       string
+		set, clear *want
+	}
+	var rows []row
+	if sc := w.Fn("(*z/tls.ClientHelloInfo).SupportsCertificate"); sc != nil {
+		for _, an := range sc.AnonFuncs {
+			s, cl := flagEdges(an, maskOf("suiteECSign"))
+			if len(s)+len(cl) == 0 {
+				continue
+			}
+			rows = append(rows,
+				row{an, "tls.ClientHelloInfo.SupportsCertificate (suite filter)", "suiteECSign", &want{"true", "ecdsaCipherSuite"}, &want{"false", "ecdsaCipherSuite"}},
+				row{an, "tls.ClientHelloInfo.SupportsCertificate (suite filter)", "suiteECDHE", nil, &want{"never", ""}},
+				row{an, "tls.ClientHelloInfo.SupportsCertificate (suite filter)", "suiteTLS12", &want{"ge", "vers"}, nil})
+		}
+	}
+	if ok := w.Fn("(*z/tls.serverHandshakeState).cipherSuiteOk"); ok != nil {
+		rows = append(rows,
+			row{ok, "tls.serverHandshakeState.cipherSuiteOk", "suiteECSign", &want{"true", "ecSignOk"}, &want{"true", "rsaSignOk"}},
+			row{ok, "tls.serverHandshakeState.cipherSuiteOk", "suiteECDHE", &want{"true", "ecdheOk"}, &want{"true", "rsaDecryptOk"}},
+			row{ok, "tls.serverHandshakeState.cipherSuiteOk", "suiteTLS12", &want{"ge", "vers"}, nil})
+	}
+	c.Check(len(rows) == 6, "R-SIBLING", "z/tls", "suite/certificate compatibility deciders found (SupportsCertificate filter, cipherSuiteOk)", "-", fmt.Sprint(len(rows)))
+	for _, r := range rows {
+		set, clear := flagEdges(r.fn, maskOf(r.mask))
+		c.Sites++
+		c.Check(len(set) >= 1 && len(clear) >= 1, "R-SIBLING", r.name, "the test of "+r.mask+" is present", w.Pos(r.fn.Pos()), fmt.Sprintf("set-edges=%d clear-edges=%d", len(set), len(clear)))
+		for i, wn := range []*want{r.set, r.clear} {
+			if wn == nil {
+				continue
+			}
+			edges, pol := set, "set"
+			if i == 1 {
+				edges, pol = clear, "clear"
+			}
+			if len(edges) == 0 {
+				continue
+			}
+			wn := wn
+			lbl := fmt.Sprintf("a suite with %s %s is accepted only if %s is %s", r.mask, pol, wn.leaf, wn.op)
+			if wn.op == "never" {
+				lbl = fmt.Sprintf("a suite with %s %s is never accepted", r.mask, pol)
+			}
+			if wn.op == "ge" {
+				lbl = fmt.Sprintf("a suite with %s %s is accepted only if the version is at least TLS 1.2", r.mask, pol)
+			}
+			cut := func(f Fact) bool {
+				switch wn.op {
+				case "never":
+					return false
+				case "ge":
+					return (f.Op == "ge" || f.Op == "gt") && f.X != nil && strings.Contains(Expr(f.X), wn.leaf)
+				}
+				return f.Op == wn.op && f.X != nil && strings.HasSuffix(Expr(f.X), wn.leaf)
+			}
+			sp := CutSpec{Rule: "R-SIBLING", Fn: r.fn, Label: lbl, StartEdges: edges, Target: TrueReturn(0, cut), Cut: cut, MinTargets: -1}
+			// the version test precedes the flag test in the conjunction: facts known on entry to the edge
+			for k := range sp.StartEdges {
+				sp.StartEdges[k].Known = domFacts(sp.StartEdges[k].B)
+			}
+			c.Cut(sp)
 		}
 	}
 }
